@@ -316,6 +316,12 @@ def plan(ctx):
         sel_keys = {PC.cfg_key(i[0]) for i in sel}
         # every other configuration at one pre-emption
         items = sel + [(c, (1, 0, 0) if "codecheck" not in c["actors"] else b, m) for (c, b, m) in items if PC.cfg_key(c) not in sel_keys]
+    else:
+        # PB 3 on a VERIF_SEED-rotated third of the pair configurations (and on the codecheck ones), PB 2 on all the others:
+        # PB 3 everywhere is several hours of exploration
+        pair_items = [it for it in items if len(it[0]["actors"]) == 2]
+        sel_keys = {PC.cfg_key(i[0]) for i in PC.rotate_slice(pair_items, ctx.seed, 3)}
+        items = [(c, b if (PC.cfg_key(c) in sel_keys or "codecheck" in c["actors"]) else (2, 0, 0), m) for (c, b, m) in items]
     return PC.shard_items(items, lambda it: it[1][0] * len(it[0]["actors"]), 6, nshards=6)
 
 
@@ -325,7 +331,7 @@ def run(ctx):
     ctx.rule = ("actor multisets over %s (pairs; thorough also triples) x initial directory %s x directory order {asc, desc} x "
                 "{threads sharing the cached function, 'processes' with private function / Memory objects}; every interleaving at "
                 "file-system-call granularity with <= PB pre-emptions (bounds in samples); quick = a VERIF_SEED-rotated third at PB 2, "
-                "all the others at PB 1; thorough = PB 3 (pairs) / PB 2 (triples); three first users of one function (codecheck x 3: only the source-check step of a call) at PB 3 in both tiers. distinct_nontrivial = distinct outcome vectors" % (list(OPS), list(INITS)))
+                "all the others at PB 1; thorough = PB 3 on a rotated third of the pairs, PB 2 on the other pairs and on the triples; three first users of one function (codecheck x 3: only the source-check step of a call) at PB 3 in both tiers. distinct_nontrivial = distinct outcome vectors" % (list(OPS), list(INITS)))
     ctx.exhaustive = True
     ctx.assumptions += ["scheduling points = C-level file-system entry points seen through sys.monitoring CALL events; code between two of them runs atomically",
                         "the 'processes' model runs actors as threads with private function, Memory and function-table entries; genuinely per-process state (pid in temporary names) is shared",
